@@ -1,4 +1,5 @@
-"""C12 — hydrogen completion: exact-graph correspondence + executable spec on implementation outputs.
+"""C12 — hydrogen completion: exact-graph correspondence (modulo the ids of the new hydrogens where the exact one
+fails and the spec holds, see `canonical_completion`) + executable spec on implementation outputs.
 
 Every case sends the input graph (wire form keeps node order, adjacency order) and the graph the
 real `fgutils.utils.add_implicit_hydrogens` returned for a copy of it.  The driver answers with
@@ -241,9 +242,78 @@ def make_cases(name, g, tags, rng=None, variant_kinds=None):
     return cases
 
 
+# ---------------------------------------------------------------------------------------------------------------
+# correspondence modulo the ids of the NEW hydrogens (review 3, M6).  The statement fixes which atoms get how many
+# hydrogens and that their ids were not in use; it does not fix WHICH unused id a hydrogen gets nor the order in
+# which the new atoms are created (that depends on the order the loop visits the heavy atoms).  When the exact
+# wire-level comparison with the model fails, both outputs are brought to a canonical form in which every new
+# hydrogen is renamed (parent id, k) = the k-th new hydrogen in its parent's adjacency row, the new atoms and their
+# rows are sorted, and everything about the old atoms (node order, attributes, the old part of every row) stays as
+# it is.  Equal canonical forms + the proved-sound executable specification holding on the implementation's output
+# = agreement (tag `fresh_ids_differ`, counted in the evidence).  An output that violates the specification never
+# gets here: it is a VIOLATION with replay.
+def canonical_completion(n_old, graph):
+    """wire form (parsed: [multi, nodes, adj]) of a completion of a graph with n_old nodes -> canonical form,
+    or None when a new atom has not exactly one bond to an old atom (no canonical form: stays a disagreement)"""
+    multi, nodes, adj = graph
+    old_nodes, new_nodes = nodes[:n_old], nodes[n_old:]
+    old_ids = [x[0] for x in old_nodes]
+    new_ids = {x[0] for x in new_nodes}
+    if len(new_ids) != len(new_nodes) or new_ids & set(old_ids) or [r[0] for r in adj] != [x[0] for x in nodes]:
+        return None
+    rows = {r[0]: r[1] for r in adj}
+    name = {}
+    for a in old_ids:
+        k = 0
+        for e in rows[a]:
+            if e[0] in new_ids:
+                if e[0] in name:
+                    return None
+                name[e[0]] = ["new", a, str(k)]
+                k += 1
+    if set(name) != new_ids:
+        return None
+
+    def ren(i):
+        return name.get(i, i)
+
+    c_old_rows = [[a, [[ren(e[0]), e[1]] for e in rows[a]]] for a in old_ids]
+    c_new_nodes = sorted(([ren(x[0])] + x[1:] for x in new_nodes), key=repr)
+    c_new_rows = sorted(([ren(h), [[ren(e[0]), e[1]] for e in rows[h]]] for h in new_ids), key=repr)
+    return [multi, old_nodes, c_new_nodes, c_old_rows, c_new_rows]
+
+
+def agrees_modulo_fresh_ids(o):
+    """the exact comparison failed: do model and implementation agree up to the ids / creation order of the new H?"""
+    if not o.ok_reply or o.spec_impl != "1" or o.case.req[1] != "addh" or o.impl_c[:1] == ["raised"]:
+        return False
+    try:
+        n_old = len(o.case.req[2][1])
+        cm, ci = canonical_completion(n_old, o.model), canonical_completion(n_old, o.impl_c)
+    except Exception:
+        return False
+    return cm is not None and cm == ci
+
+
+def forgive_fresh_ids(r, outs):
+    """take the cases that agree modulo the new hydrogens' ids out of the correspondence failures (counted, tagged)"""
+    mine = {id(o) for o in outs}
+    keep = []
+    for o in r.corr_failures:
+        if id(o) in mine and not o.spec_fail and agrees_modulo_fresh_ids(o):
+            r.count("tag:fresh_ids_differ")
+            r.notes.setdefault("fresh_ids_differ", [])
+            if len(r.notes["fresh_ids_differ"]) < 3:
+                r.notes["fresh_ids_differ"].append({"request": o.case.line()[:400], "model": sx(o.model)[:300]})
+        else:
+            keep.append(o)
+    r.corr_failures[:] = keep
+
+
 def tally(r, outs):
     """hypothesis coverage: every input must satisfy the theorems' well-formedness hypothesis C12.WF, and the
     model's own output must pass the executable spec (spec_model)"""
+    forgive_fresh_ids(r, outs)
     for o in outs:
         if not o.ok_reply:
             continue
@@ -313,7 +383,11 @@ def run(tier, seed):
         checker_cmd="cd lean && lake build FGVerif.Proofs.C12 && lake env lean FGVerif/Audit/C12.lean",
         explanation="theorems in lean/FGVerif/Proofs/C12.lean about Model/C12.lean (spec_holds, only_adds_hydrogens, fresh_ids, count, idempotent, "
                     "specCheck_sound, valence_table_main_group on the regenerated table); model tied to fgutils.utils.add_implicit_hydrogens by exact "
-                    "wire-level differential testing; executable spec C12.specCheck (own reference valences) applied to every implementation output")
+                    "wire-level differential testing; where the exact comparison fails but the implementation's output meets the executable "
+                    "spec, the two outputs are compared modulo a renaming of the NEW hydrogens (each renamed (parent id, k-th new hydrogen of "
+                    "that parent); new atoms and their rows sorted; everything about the old atoms exact) and an equal canonical form counts as "
+                    "agreement (tag fresh_ids_differ in the input distribution: the statement does not fix which unused ids are taken nor the "
+                    "order in which atoms are visited); executable spec C12.specCheck (own reference valences) applied to every implementation output")
 
 
 # ---------------------------------------------------------------------------
@@ -386,8 +460,10 @@ def replay(path):
     case = Case([Atom("C12"), Atom(op), enc_in], enc_graph(out) if isinstance(out, nx.Graph) else out, meta={"replay": path})
     o = r.evaluate([case])[0]
     r.driver.close()
-    print("REPLAY property=C12 op=%s spec_impl=%s model==impl:%s failing_clauses=%s" % (
-        op, o.spec_impl, o.corr, o.extra[0] if o.extra else "-"))
+    modulo = (not o.corr) and op == "addh" and agrees_modulo_fresh_ids(o)
+    print("REPLAY property=C12 op=%s spec_impl=%s model==impl:%s%s failing_clauses=%s" % (
+        op, o.spec_impl, o.corr, " (equal modulo the ids of the new hydrogens: fresh_ids_differ)" if modulo else "",
+        o.extra[0] if o.extra else "-"))
     print("  input : %s" % sx(enc_in))
     print("  impl  : %s" % (o.impl_c,))
-    return 1 if (o.spec_fail or not o.corr or o.driver_error) else 0
+    return 1 if (o.spec_fail or not (o.corr or modulo) or o.driver_error) else 0
